@@ -231,6 +231,7 @@ impl Host for SpawnHost {
     fn db_written(&mut self, _b: &[u8]) {}
     fn on_state(&mut self, _id: usize, _d: Option<&str>, _c: Option<&str>, _p: u8, _n: u8) {}
     fn on_update(&mut self, _c: [usize; 6], _t: usize) {}
+    fn on_check(&mut self, _id: usize, _d: Option<&str>, _c: Option<&str>, _deps: &[String]) {}
     fn on_task_started(&mut self, _id: usize, cmd: &str) {
         let id = CUR.with(|c| probe_id(cmd, c.borrow().as_ref().unwrap()));
         let mut sh = self.sh.borrow_mut();
